@@ -10,6 +10,7 @@ import (
 	"fmt"
 	"io"
 	"net/http"
+	"net/url"
 	"strconv"
 	"sync"
 	"testing"
@@ -27,7 +28,7 @@ type RespSpec struct {
 	Rak  string `json:"rak"`  // Retry-After form: none | secs | date | garbage (sent, but not a valid form)
 	Rav  int    `json:"rav"`  // secs: seconds; date: seconds after the (rounded up) instant of the response
 	Code int    `json:"code"` // concrete status (0: the default of the class)
-	Var  string `json:"var"`  // variant: "", bodyerr, empty, trunc, via307, via308, noloc
+	Var  string `json:"var"`  // variant: "", bodyerr, wrapdeadline, wrapcanceled, urldeadline, empty, trunc, via307, via308, noloc
 }
 
 // CallSpec is one submission of a caller.
@@ -250,9 +251,19 @@ func (w *world) RoundTrip(req *http.Request) (*http.Response, error) {
 		}
 		resp = mkResp(req, 200, hdr, bytes.NewReader([]byte(body)))
 	case "neterr":
-		if sp.Var == "bodyerr" {
+		// transport errors; the caller's context is alive in all of them.  The wrap* variants have the shape of
+		// net/http's Client.Timeout / per-request deadline errors: they satisfy errors.Is(err, context.DeadlineExceeded)
+		// (or Canceled) although the caller's own context has not ended - still a transport error, still retried.
+		switch sp.Var {
+		case "bodyerr":
 			resp = mkResp(req, code, hdr, &errReader{data: []byte("partial")})
-		} else {
+		case "wrapdeadline":
+			err = fmt.Errorf("net/http: request canceled (Client.Timeout exceeded while awaiting headers): %w", context.DeadlineExceeded)
+		case "wrapcanceled":
+			err = fmt.Errorf("net/http: request canceled while waiting for connection: %w", context.Canceled)
+		case "urldeadline":
+			err = &url.Error{Op: "Post", URL: req.URL.String(), Err: context.DeadlineExceeded}
+		default:
 			err = errors.New("scripted: connection refused")
 		}
 	case "redir":
